@@ -383,7 +383,24 @@ def c02(run):
         "field is not used after a call that is handed the owning object and may free that field (R-STALE-COPY).")
 
 
+def c07(run):
+    from rules import r_response
+    P = run.prog('rel')
+    r_response.run(run, P)
+    run.min_instances('R-RESP', 4)
+    run.assumptions = ASSUME_COMMON + ["exactly-once conclusion over all patterns of loss / duplication / delay, the NACK side (coap_retransmit give-up, decided under C06) and the "
+                                       "server's separate-response machinery are NOT decided; returns of handle_response() that never reach the handler (token-size / Q-Block "
+                                       "probing, the Block2 path that acknowledges inside its callee, the failed re-lock exit) carry no obligation"]
+    return run.finish(
+        "Four clauses the statement of C07 names and that are visible in the shape of handle_response() on every path: the duplicate filter (handler never "
+        "reached on the arm rcvd->mid == session->last_con_mid, that arm answers exactly once and returns, last_con_mid recorded on the other arm before the "
+        "handler); exactly one ACK/RST for the received PDU after the handler, the Reset exactly on the FAIL-and-not-ACK arm, with the recorded verdict "
+        "agreeing; a non-ACK response cancels the request's retransmission by token before the handler; a response consumed by sending the next Block1 is "
+        "acknowledged (R-RESP).")
+
+
 PROPS = {
+    'C07': c07,
     'C02': c02,
     'C14': c14,
     'C19': c19,
@@ -408,6 +425,7 @@ PROPS = {
 # thorough tier: additional build configurations (core/facts.CFGS) in which the property's anchors exist.  Each costs one
 # cmake configure + one extraction per mode.  Configurations that compile the property's code out are not listed.
 VARIANTS = {
+    'C07': ['noepoll', 'noqblock', 'nooscore', 'clientonly'],
     'C01': ['smallstack', 'noqblock'],
     'C02': ['noepoll', 'noqblock', 'smallstack', 'serveronly'],
     'C03': ['smallstack', 'noqblock'],
